@@ -32,6 +32,7 @@ Record own_cond (T : ftables) : Prop := {
   oc_poll : forall f st st' act, T.(t_poll) f st = (st', act) ->
      match act with PADrain => owned st = false /\ st <> Panicked /\ st' = Running | PAWait => st' = st | PAPanic => st' = st /\ st = Panicked end;
   oc_next : forall st st', T.(ft_base).(t_next) st = Some st' -> owned st = false /\ st <> Panicked /\ st' = Running;
+  oc_claim : forall st st', T.(ft_base).(t_claim) st = Some st' -> owned st = false /\ st <> Panicked /\ st' = Running;
   oc_drain_pend : forall st, owned st = true -> st <> WaitingForUnpark ->
      let st' := T.(t_drain_pend) st in st' = WaitingForWake \/ (owned st' = true /\ st' <> WaitingForUnpark);
   oc_drain_fin : forall st e st' d, owned st = true -> st <> WaitingForUnpark -> T.(ft_base).(t_drain_fin) st e = (st', d) ->
@@ -116,6 +117,7 @@ Ltac tbl_facts HT :=
   | E : t_sync _ _ _ = (_, _) |- _ => apply (oc_sync _ HT) in E; cbn in E
   | E : t_poll _ _ _ = (_, _) |- _ => apply (oc_poll _ HT) in E; cbn in E
   | E : t_next _ _ = Some _ |- _ => apply (oc_next _ HT) in E
+  | E : t_claim _ _ = Some _ |- _ => apply (oc_claim _ HT) in E
   end.
 
 Section Pres.
